@@ -33,11 +33,52 @@ def reset_globals():
     Vertex.NEIGHBOR_CACHING = False
 
 
+_PRISTINE = {}
+
+
+def _library_classes():
+    import sys
+    out = []
+    for name, mod in list(sys.modules.items()):
+        if name.startswith("edgegraph.structure.") and mod is not None:
+            for obj in vars(mod).values():
+                if isinstance(obj, type) and obj.__module__ == name and obj not in out:
+                    out.append(obj)
+    return out
+
+
 def new_item():
-    """Between independent work items (no world of the previous item is used any more): forget the
-    per-vertex statistics so that the table does not grow without bound in long-lived workers."""
+    """
+    Between independent work items (no world of the previous item is used any more): bring every
+    class-level mutable container of the structure classes (Vertex._CACHE_STATS, and any other
+    dict / list / set a class body defines) back to its content at import time, in place.  This
+    owns the library's class-level global state, so that executions are independent of what a
+    long-lived worker ran before and every reported history replays from a fresh process.
+    (The singleton registries are handled by the C17/C18 worlds themselves.)
+    """
+    import copy as _copy
     Vertex.NEIGHBOR_CACHING = False
-    Vertex._CACHE_STATS.clear()
+    for cls in _library_classes():
+        if cls.__module__.endswith(".singleton"):
+            continue
+        for name, val in list(vars(cls).items()):
+            if name.startswith("__") and name.endswith("__"):
+                continue
+            if isinstance(val, (dict, list, set)):
+                key = (cls, name)
+                if key not in _PRISTINE:
+                    # first sight: the table that maps uids to statistics starts empty; anything else
+                    # is taken as it is now (first call happens before any world is built)
+                    _PRISTINE[key] = type(val)() if name == "_CACHE_STATS" else _copy.copy(val)
+                pristine = _PRISTINE[key]
+                if isinstance(val, dict):
+                    val.clear()
+                    val.update(pristine)
+                elif isinstance(val, list):
+                    val[:] = pristine
+                else:
+                    val.clear()
+                    val.update(pristine)
 
 
 class SWorld:
